@@ -16,6 +16,6 @@ if [ "${SKIPTESTS:-0}" != 1 ]; then
 fi
 /venv/bin/python _seed/demo.py > $WT/.demo1 2>&1; echo "demo with patch: exit $? ($(tail -1 $WT/.demo1))"
 for id in "$@"; do
-  (cd /verif && PYMININEC_SRC=$WT MCX_EVIDENCE_DIR=$WT/.ev ./check $id --tier ${TIER:-quick} 2>&1 | grep -E "^(C[0-9]+ tier|VIOLATION|KNOWN|FLAKY|  signature)" | cut -c1-300 | head -8)
+  (cd /verif && PYMININEC_SRC=$WT MCX_EVIDENCE_DIR=$WT/.ev ./check $id --tier ${TIER:-quick} 2>&1 | grep -E "^(C[0-9]+ tier|VIOLATION|FLAKY|  signature)" | cut -c1-300 | head -10)
 done
 cd /; git -C /repo worktree remove --force $WT; git -C /repo worktree prune
